@@ -9,7 +9,9 @@
 (***************************************************************************)
 EXTENDS Scopes
 
-CONSTANTS MaxStmts, MaxDepth, Kinds     \* Kinds: which compound statements to generate
+CONSTANTS MaxStmts, MaxDepth, Kinds,    \* Kinds: which compound statements to generate
+          GenVars,                      \* variables used by generated assignments / uses (subset of Vars)
+          SimpleKinds                   \* which simple statements to generate
 
 \* shapes of compound statements: the names of their blocks in order
 Shapes ==
@@ -41,11 +43,11 @@ AfterJump == Top.cur # << >> /\ Top.cur[Len(Top.cur)].k \in {"return", "raise", 
 
 AddSimple ==
     /\ ~done /\ nid <= MaxStmts /\ ~AfterJump
-    /\ \E s \in {[k |-> "assign", v |-> "x", id |-> nid], [k |-> "assign", v |-> "y", id |-> nid],
-                 [k |-> "use", v |-> "x", id |-> nid], [k |-> "use", v |-> "y", id |-> nid],
-                 [k |-> "return", id |-> nid], [k |-> "raise", id |-> nid], [k |-> "call", id |-> nid]}
-                \cup (IF InLoopBody THEN {[k |-> "break", id |-> nid], [k |-> "continue", id |-> nid]} ELSE {}) :
-         Push(s)
+    /\ \E s \in ({[k |-> "assign", v |-> w, id |-> nid] : w \in GenVars} \cup {[k |-> "use", v |-> w, id |-> nid] : w \in GenVars}
+                 \cup {[k |-> "return", id |-> nid], [k |-> "raise", id |-> nid], [k |-> "call", id |-> nid]}
+                 \cup (IF InLoopBody THEN {[k |-> "break", id |-> nid], [k |-> "continue", id |-> nid]} ELSE {})) :
+         /\ s.k \in SimpleKinds
+         /\ Push(s)
     /\ nid' = nid + 1 /\ UNCHANGED done
 
 Open ==
@@ -125,6 +127,19 @@ UseOK(prog, u, reported) == UseOK2(Reaching(prog, "strict"), Reaching(prog, "lib
 
 \* Known deviations of the implementation (see known_findings.jsonl); each is a predicate on the program
 \* and on the shape of the failure, so that any other failure is still reported.
+\* a try statement or a suppressing `with` placed where the visitor visits twice (a finally clause, a loop body)
+RECURSIVE SuppressRevisited(_, _)
+SuppressRevisited(block, twice) ==
+    \E i \in 1..Len(block) :
+        LET s == block[i]
+        IN \/ twice /\ (s.k = "try" \/ (s.k = "with" /\ s.supp))
+           \/ s.k = "if" /\ (SuppressRevisited(s.body, twice) \/ SuppressRevisited(s.orelse, twice))
+           \/ s.k \in {"while", "for"} /\ (SuppressRevisited(s.body, TRUE) \/ SuppressRevisited(s.orelse, twice))
+           \/ s.k = "with" /\ SuppressRevisited(s.body, twice)
+           \/ s.k = "try" /\ (SuppressRevisited(s.body, twice) \/ SuppressRevisited(s.orelse, twice)
+                              \/ SuppressRevisited(s.final, TRUE)
+                              \/ \E j \in 1..Len(s.handlers) : SuppressRevisited(s.handlers[j], twice))
+
 RECURSIVE AnyStmt(_, _)
 AnyStmt(block, kind) ==       \* does the program contain a statement with the given feature?
     \E i \in 1..Len(block) :
@@ -144,7 +159,9 @@ UseVerdict2(prog, rs, rl, u, reported) ==
     LET strict == At(rs, u)
         liberal == At(rl, u)
         missing == strict \ reported
-        extra == reported \ liberal
+        \* assignments in dead code (e.g. the else clause of a try whose body always returns) are analysed as if control
+        \* fell through, by design; they are not counted against the property
+        extra == (reported \ liberal) \cap (LiveDefs(rl) \cup {0})
     IN IF liberal = {} \/ (missing = {} /\ extra = {}) THEN "ok"
        \* (a) the else clause of a loop is analysed from the state before the loop only, and the second
        \*     visit of the loop body sees the assignments of the else clause
@@ -155,6 +172,10 @@ UseVerdict2(prog, rs, rl, u, reported) ==
             THEN "dev:always-entered-loop-first-iteration"
        \* (c) the loop body is visited a second time even when its first pass always leaves the loop
        ELSE IF AnyStmt(prog, "bodyleaves") /\ missing = {} THEN "dev:loop-body-revisited-after-unconditional-exit"
+       \* (d) suppressing_subscope finds the assignments of its block by comparing name_to_all_definition_nodes before
+       \*     and after; when the block is visited a second time (finally clause, loop body) the nodes are already
+       \*     there, so the assignments made inside a try body / suppressing with are dropped after the block
+       ELSE IF SuppressRevisited(prog, FALSE) /\ extra = {} THEN "dev:suppressing-block-revisited-loses-assignments"
        ELSE "viol"
 
 UseVerdict(prog, u, reported) == UseVerdict2(prog, Reaching(prog, "strict"), Reaching(prog, "liberal"), u, reported)
